@@ -31,6 +31,12 @@ class NumberLimitsWarning(Warning):
     pass
 
 
+def _is_nan(value):
+    if isinstance(value, decimal.Decimal):
+        return value.is_nan()
+    return value != value
+
+
 class Decimal(SimpleModel):
     """The primitive that corresponds to the native python Decimal.
 
@@ -196,6 +202,7 @@ class Decimal(SimpleModel):
     def validate_native(cls, value):
         return SimpleModel.validate_native(cls, value) and (
             value is None or (
+                not _is_nan(value) and  # comparing a NaN raises or lies
                 value >  cls.Attributes.gt and
                 value >= cls.Attributes.ge and
                 value <  cls.Attributes.lt and
